@@ -121,9 +121,9 @@ def _load(loop, path: str, via_context: bool):
             async def enter():
                 async with gw:
                     pass
-            loop.run_until_complete(enter())
+            loop.run_until_complete(asyncio.wait_for(enter(), 20))
         else:
-            loop.run_until_complete(gw.persistence.load())
+            loop.run_until_complete(asyncio.wait_for(gw.persistence.load(), 20))
         return "ok", proj(gw)["nodes"]
     except PersistenceReadError:
         return "readerror", proj(gw)["nodes"]
@@ -186,7 +186,7 @@ def roundtrip_case(loop, d: str, gw: Gateway, k: int, prior_text: str | None = N
         with open(path, "w", encoding="utf-8") as fil:
             fil.write(prior_text)
     try:
-        loop.run_until_complete(pers.save())
+        loop.run_until_complete(asyncio.wait_for(pers.save(), 20))
     except BaseException as err:  # noqa: BLE001
         case["saveRes"] = "other:" + type(err).__name__
         return case
@@ -453,9 +453,9 @@ def _load_worker(job):
                     async def enter(g=gw):
                         async with g:
                             pass
-                    loop.run_until_complete(enter())
+                    loop.run_until_complete(asyncio.wait_for(enter(), 20))
                 else:
-                    loop.run_until_complete(gw.persistence.load())
+                    loop.run_until_complete(asyncio.wait_for(gw.persistence.load(), 20))
                 res = "ok"
             except PersistenceReadError:
                 res = "readerror"
